@@ -251,9 +251,13 @@ def run_unit(u, desc, tier, seed):
                         u.notes.append('witness of path %d: real genhkl_all differs from the symbolic leaf in %s' % (li, sorted(diff)[:3]))
                 except Exception as ex:
                     u.notes.append('witness replay of path %d failed: %r' % (li, ex))
+        if st3 == 'violated' and u.results and u.results[-1]['status'] == 'violated' and u.results[-1].get('replay'):
+            # key the finding by the Laue families that are missing, so that a different missing family is a different violation
+            orbs = u.results[-1]['replay'].get('missing_orbits') or []
+            u.results[-1]['key'] += '[missing families %s]' % ','.join(''.join(str(x) for x in o) for o in orbs)
         if 'violated' in (st1, st2, st3):
             nviol += 1
-            if nviol >= 5:
+            if nviol >= 500:
                 u.notes.append('stopped after 5 violating paths of %d explored' % len(leaves))
                 break
 
@@ -293,7 +297,11 @@ def cell_from_env(env, crystal_system, cell_choice):
     return [a, b, c, al, be, ga], G
 
 
+MISSING_ORBITS = []
+
+
 def numeric(modname, cls, N, cell, lo, hi):
+    del MISSING_ORBITS[:]
     from xfab import sg as sgmod
     mod = importlib.import_module('xfab.' + modname)
     no, cc, _, _ = REPS[cls]
@@ -320,6 +328,15 @@ def numeric(modname, cls, N, cell, lo, hi):
         extra = [h for h in set(have) - ref if not border(h)]
         if miss:
             bad.append(('missing', 'reflections %s are in the shell and allowed but not listed' % (sorted(miss)[:4],)))
+            reps = set()
+            for h in miss:
+                orb = set()
+                for R, t in rows_ops:
+                    w = tuple(sum(h[i] * R[i][j] for i in range(3)) for j in range(3))
+                    orb.add(w)
+                    orb.add(tuple(-x for x in w))
+                reps.add(max(orb))
+            MISSING_ORBITS[:] = sorted(reps)
         if extra:
             bad.append(('extra', 'rows %s are listed but not in the shell / extinct' % (sorted(extra)[:4],)))
         st = Ha[:, 3] if len(Ha) else []
@@ -352,6 +369,7 @@ def mk_replay(f, modname, cls, N):
         rec = {'module': modname, 'cls': cls, 'N': N, 'cell': cell, 'lo': lo, 'hi': hi}
         bad = numeric(modname, cls, N, cell, lo, hi)
         if bad:
+            rec['missing_orbits'] = [list(x) for x in MISSING_ORBITS]
             return True, rec, '; '.join('%s: %s' % b for b in bad[:2])
         return False, rec, 'genhkl_all/genhkl_unique are correct for cell %s shell (%.5f, %.5f]' % ([round(x, 4) for x in cell], lo, hi)
     return replay
